@@ -31,7 +31,7 @@ func (c17) Assumptions() []string {
 }
 
 var c17Cfg = [][2]time.Duration{{100 * time.Millisecond, 500 * time.Millisecond}, {200 * time.Millisecond, time.Second}, {400 * time.Millisecond, 2 * time.Second}}
-var c17Act = []string{"idle3", "idle8", "call0.1", "call1", "call3", "call6", "sub5", "bigslow"}
+var c17Act = []string{"idle3", "idle8", "call0.1", "call1", "call3", "call6", "sub5", "bigslow", "busyheld"}
 
 func (c17) Plan(tier string, seed int64) []core.Scenario {
 	var out []core.Scenario
@@ -42,7 +42,7 @@ func (c17) Plan(tier string, seed int64) []core.Scenario {
 					if cfg > 0 && !(cfg == 1 && sp == 2 && act == "call3") {
 						continue
 					}
-					if (sp+ai+int(seed))%2 == 1 && !(sp == 2 && (act == "idle3" || act == "call3")) {
+					if (sp+ai+int(seed))%2 == 1 && !(sp == 2 && (act == "idle3" || act == "call3" || act == "busyheld")) {
 						continue
 					}
 				}
@@ -51,7 +51,7 @@ func (c17) Plan(tier string, seed int64) []core.Scenario {
 		}
 	}
 	for cfg := 0; cfg < 3; cfg++ {
-		for pt := 0; pt < 4; pt++ {
+		for pt := 0; pt < 5; pt++ {
 			if tier != "thorough" && cfg > 0 {
 				continue
 			}
@@ -200,6 +200,27 @@ func (c17) once(sc core.Scenario, scale int) (fails []core.Violation, key string
 			if !core.WaitCh(g.done, 5*timeout+2*time.Second) || g.n() != 3 {
 				fail("subscription-broken", "a subscription open for %v on a healthy link delivered %d of 3 values / closed=%v", dur, g.n(), g.isClosed())
 			}
+		case act == "busyheld":
+			// steady outgoing traffic (a new call every ping/2) whose answers all take longer than the timeout
+			dur = 3 * timeout
+			var held []*Outcome
+			stopAt := time.Now().Add(dur)
+			for time.Now().Before(stopAt) {
+				t := Tok("h")
+				env.Svc.Hold(t)
+				held = append(held, Go(t, func() (string, error) { return cl.Echo(bg, t, "") }))
+				time.Sleep(ping / 2)
+			}
+			env.Svc.ReleaseAll()
+			bad := 0
+			for _, o := range held {
+				if !o.Wait(5*timeout+2*time.Second) || o.Err != nil || o.Val != svc.Reply(o.Tok) {
+					bad++
+				}
+			}
+			if bad > 0 {
+				fail("long-call-failed", "%d of %d calls issued every %v and answered only after %v failed on a healthy link (ping %v, timeout %v, server ping %v)", bad, len(held), ping/2, dur, ping, timeout, sping)
+			}
 		case act == "bigslow":
 			dur = 3 * timeout
 			old := jsonrpc.VerifSetReadDeadlineResetInterval(timeout / 5)
@@ -243,8 +264,24 @@ func (c17) once(sc core.Scenario, scale int) (fails []core.Violation, key string
 	}
 	acc := env.Px.Accepts()
 	t0 := time.Now()
-	env.Px.KillAll(wsproxy.BLACKHOLE)
 	bound := 5*timeout + 2*time.Second
+	if pt == 4 {
+		// the peer falls silent in the middle of a frame of a large response (slow-read renewal interval
+		// well below the timeout, as the defaults 5 s / 30 s are)
+		old := jsonrpc.VerifSetReadDeadlineResetInterval(timeout / 6)
+		defer jsonrpc.VerifSetReadDeadlineResetInterval(old)
+		env.Px.Arm(&wsproxy.Fault{Kind: wsproxy.BLACKHOLE, Dir: wsproxy.S2C, Pos: 2, Match: func(fi wsproxy.FrameInfo) bool { return fi.Len > 100000 }})
+		t := Tok("b")
+		pending = Go(t, func() (string, error) { return cl.Big(bg, t, 1<<20) })
+		if !pending.Wait(bound) {
+			fail("silent-peer-undetected", "a call whose response stopped arriving in the middle of a frame did not fail within %v (timeout %v)", bound, timeout)
+		} else if pending.Err == nil {
+			fail("silent-peer-undetected", "call across a mid-frame blackhole returned a value of %d bytes (accepts %d -> %d, frames seen %d)", len(pending.Val), acc, env.Px.Accepts(), len(env.Px.Frames()))
+		}
+		pending = nil
+	} else {
+		env.Px.KillAll(wsproxy.BLACKHOLE)
+	}
 	if pt == 3 {
 		// the application keeps issuing calls (one every timeout/4) while the peer is silent
 		first := Go("first", func() (string, error) { t := Tok("c"); return cl.Echo(bg, t, "") })
@@ -280,7 +317,7 @@ func (c17) once(sc core.Scenario, scale int) (fails []core.Violation, key string
 	if !core.Eventually(bound, func() bool { return env.Px.Accepts() > acc }) {
 		fail("silent-peer-no-redial", "no redial reached the proxy within %v of the peer falling silent (timeout %v)", bound, timeout)
 	}
-	sample = map[string]interface{}{"client_ping": cfg[0].String(), "client_timeout": cfg[1].String(), "blackhole_at": []string{"idle", "call in flight", "subscription open", "application keeps calling"}[pt], "detected_after": time.Since(t0).String(), "scale": scale}
+	sample = map[string]interface{}{"client_ping": cfg[0].String(), "client_timeout": cfg[1].String(), "blackhole_at": []string{"idle", "call in flight", "subscription open", "application keeps calling", "in the middle of a response frame"}[pt], "detected_after": time.Since(t0).String(), "scale": scale}
 	env.Svc.ReleaseAll()
 	return
 }
